@@ -316,8 +316,10 @@ impl VersionSet {
         let manifest_file_path = self
             .file_name_handler
             .get_manifest_file_path(manifest_file_number);
+        // A damaged manifest record must fail the recovery instead of being skipped
         let manifest_reader_result =
-            LogReader::new(Arc::clone(&filesystem), &manifest_file_path, 0);
+            LogReader::new(Arc::clone(&filesystem), &manifest_file_path, 0)
+                .map(LogReader::report_damaged_records);
         if let Err(LogIOError::IO(manifest_read_err)) = &manifest_reader_result {
             if manifest_read_err.kind() == io::ErrorKind::NotFound {
                 let err_msg = "The CURRENT file points at a non-existent manifest file.";
